@@ -11,13 +11,20 @@
      span satisfies offset + len ≤ input length — proved with the program logic of Lemmas/Hoare.lean over the scan
      loop (invariant: the collected span lies behind the cursor; the end-of-scan check bounds the cursor by the
      length).
-  The "maximal media run" half of the statement is established per generated case by `Spec_C03` on the real output.
+   * `C03_media_run` / `C03_spec_holds`: for EVERY input and configuration, a returned result means that the
+     INDEPENDENT walker (Spec/Mp4Walk.lean) finds the whole input to be a clean sequence of top-level boxes (so a box
+     overrunning the input is never accepted, on seek-based cursors too), that the span starts at the first mdat, ends
+     where the maximal run of mdat/free/skip/meta/meco boxes starting there ends, and contains every mdat: the
+     executable specification `Spec_C03` returns "no complaint" on the model's result.  Proved with partial-correctness
+     triples (Lemmas/Tri.lean) over the scan loop relating every header the loop reads to the walker's `headerAt`
+     (Lemmas/ScanRel.lean), and a list lemma about the span bookkeeping (Lemmas/MediaRun.lean).
 -/
 import MediaSan.Lemmas.Prog
 import MediaSan.Lemmas.ScanSafe
 import MediaSan.Mp4.Sanitize
+import MediaSan.Lemmas.MediaRun
 namespace MediaSan.Props.C03
-open MediaSan MediaSan.Mp4
+open MediaSan MediaSan.Mp4 MediaSan.Spec.Mp4Walk MediaSan.Spec.Mp4Rules
 
 /-- The end-of-scan check: ok iff position ≤ length, else the run ends with TruncatedBox — for either kind. -/
 theorem C03_checkEnd (s : Stream) (kind : SkipKind) (pos : Nat) :
@@ -81,7 +88,7 @@ theorem C03_extend (d : Span) (startPos boxSize : Nat) (hfit : startPos + boxSiz
     bytes, seek-based or strict `skip`, every configuration with a 32-bit cumulative size and a limit ≤ 4·(2^32−1).
     (On a seek-based cursor this is exactly what the repaired defect F1 violated.) -/
 theorem C03_span_within_input (s : Stream) (kind : SkipKind) (cfg : Config) (hlen : s.len < u64Lim)
-    (hcum : ∀ t, cfg.cumulativeMdatBoxSize = some t → t ≤ u32Max) (hmax : cfg.maxMetadataSize ≤ 4 * u32Max)
+    (hcum : ∀ t, cfg.cumulativeMdatBoxSize = some t → t ≤ Mp4.u32Max) (hmax : cfg.maxMetadataSize ≤ 4 * Mp4.u32Max)
     (r : Sanitized) (h : Mp4.sanitize s kind cfg = .ok r) : r.data.offset + r.data.len ≤ s.len := by
   have hs := sanitizeP_span s kind hlen cfg hcum hmax
   unfold Safe at hs
@@ -100,6 +107,101 @@ theorem C03_span_within_input (s : Stream) (kind : SkipKind) (cfg : Config) (hle
   | ioErr k => rw [hr] at h; simp [Outcome.fst] at h
   | panic site => rw [hr] at h; simp [Outcome.fst] at h
   | outOfFuel => rw [hr] at h; simp [Outcome.fst] at h
+
+/-- the whole-run facts behind `Spec_C03`, stated outright -/
+theorem C03_media_run (s : Stream) (kind : SkipKind) (cfg : Config) (r : Sanitized)
+    (h : Mp4.sanitize s kind cfg = .ok r) :
+    ∃ bs, walkAll s 0 s.len cfg.cumulativeMdatBoxSize = .clean bs ∧
+      r.data.offset + r.data.len ≤ s.len ∧
+      (∃ m, firstMdat bs = some m ∧ r.data.offset = m.offset) ∧
+      (∃ l, (mediaRun bs).getLast? = some l ∧ r.data.offset + r.data.len = l.endOff) ∧
+      (∀ b ∈ bs, b.name = mdatN → r.data.offset ≤ b.offset ∧ b.endOff ≤ r.data.offset + r.data.len) := by
+  have hs := sanitizeP_rel s kind cfg (fuelFor s)
+  unfold Tri at hs
+  simp only [Mp4.sanitize, Mp4.sanitizeWith, run_eq_runF] at h
+  cases hr : (sanitizeP cfg (fuelFor s)).runF (idealOps s kind) 0 with
+  | ok x =>
+    obtain ⟨a, p⟩ := x
+    rw [hr] at hs h
+    cases a with
+    | none => simp [Outcome.fst] at h
+    | some r' =>
+      simp only [Outcome.fst, Outcome.ok.injEq] at h
+      subst h
+      obtain ⟨bs, hw, hg, he, hf⟩ := hs r' rfl
+      obtain ⟨f1, f2, f3⟩ := span_is_media_run bs 0 r'.data hg hf
+      refine ⟨bs, hw, ?_, f1, f2, f3⟩
+      obtain ⟨l, hl, hle⟩ := f2
+      rw [hle]
+      have hmem : l ∈ mediaRun bs := List.mem_of_getLast? hl
+      have : l ∈ bs := by
+        unfold mediaRun at hmem
+        exact (List.dropWhile_sublist _).subset ((List.takeWhile_sublist _).subset hmem)
+      exact he l this
+  | parseErr e => rw [hr] at h; simp [Outcome.fst] at h
+  | ioErr k => rw [hr] at h; simp [Outcome.fst] at h
+  | panic site => rw [hr] at h; simp [Outcome.fst] at h
+  | outOfFuel => rw [hr] at h; simp [Outcome.fst] at h
+
+/-- C03 as the executable specification states it: `Spec_C03` has no complaint about any result the model returns,
+    for every input, configuration and kind of cursor — whether or not metadata is returned with the span. -/
+theorem C03_spec_holds (s : Stream) (kind : SkipKind) (cfg : Config) (r : Sanitized)
+    (h : Mp4.sanitize s kind cfg = .ok r) (md : Stream) :
+    Spec_C03 s ⟨cfg.maxMetadataSize, cfg.cumulativeMdatBoxSize⟩ (.noop r.data.offset r.data.len) = none ∧
+    Spec_C03 s ⟨cfg.maxMetadataSize, cfg.cumulativeMdatBoxSize⟩ (.rewritten md r.data.offset r.data.len) = none := by
+  obtain ⟨bs, hw, hle, ⟨m, hm1, hm2⟩, ⟨l, hl1, hl2⟩, hall⟩ := C03_media_run s kind cfg r h
+  have hnot : ¬ (r.data.offset + r.data.len > s.len) := by omega
+  have hfilter : ((bs.filter (·.name = (cc 'm' 'd' 'a' 't'))).all
+      (fun m => decide (r.data.offset ≤ m.offset ∧ m.endOff ≤ r.data.offset + r.data.len))) = true := by
+    rw [List.all_eq_true]
+    intro b hb
+    have hb' := List.mem_filter.mp hb
+    have hn : b.name = mdatN := by
+      have := hb'.2
+      simp only [decide_eq_true_eq] at this
+      rw [← cc_mdat]; exact this
+    simp only [decide_eq_true_eq]
+    exact hall b hb'.1 hn
+  have key : (if r.data.offset + r.data.len > s.len then some "span-exceeds-input"
+      else if ¬ (Walk.clean bs).isClean = true then some "accepted-input-with-box-overrunning-or-malformed"
+      else match firstMdat (Walk.clean bs).boxes with
+        | none => some "span-without-mdat"
+        | some d =>
+          if r.data.offset ≠ d.offset then some "span-does-not-start-at-first-mdat"
+          else match (mediaRun (Walk.clean bs).boxes).getLast? with
+            | none => some "empty-run"
+            | some l =>
+              if r.data.offset + r.data.len ≠ l.endOff then some "span-does-not-end-with-media-run"
+              else if ¬ (((Walk.clean bs).boxes.filter (·.name = (cc 'm' 'd' 'a' 't'))).all
+                  (fun m => r.data.offset ≤ m.offset ∧ m.endOff ≤ r.data.offset + r.data.len)) = true then
+                some "mdat-outside-span"
+              else none) = (none : Option String) := by
+    rw [if_neg hnot, if_neg (by simp [Walk.isClean])]
+    simp only [Walk.boxes]
+    rw [hm1]
+    dsimp only
+    rw [if_neg (by simp [hm2]), hl1]
+    dsimp only
+    rw [if_neg (by simp [hl2])]
+    simp only [hfilter, not_true_eq_false, if_false]
+  constructor
+  · simp only [Spec_C03, top, hw]
+    exact key
+  · simp only [Spec_C03, top, hw]
+    exact key
+
+-- Non-vacuity: a complete file (ftyp, moov>trak>mdia>minf>stbl>stco, mdat) is accepted with the span of its mdat,
+-- so the hypothesis of C03_media_run / C03_spec_holds is met
+def tinyMp4 : Bytes :=
+  [0,0,0,20, 0x66,0x74,0x79,0x70, 0x69,0x73,0x6f,0x6d, 0,0,0,0, 0x69,0x73,0x6f,0x6d,
+   0,0,0,56, 0x6d,0x6f,0x6f,0x76,
+   0,0,0,48, 0x74,0x72,0x61,0x6b,
+   0,0,0,40, 0x6d,0x64,0x69,0x61,
+   0,0,0,32, 0x6d,0x69,0x6e,0x66,
+   0,0,0,24, 0x73,0x74,0x62,0x6c,
+   0,0,0,16, 0x73,0x74,0x63,0x6f, 0,0,0,0, 0,0,0,0,
+   0,0,0,8, 0x6d,0x64,0x61,0x74]
+example : Mp4.sanitize (Stream.ofBytes tinyMp4) .seekable {} = .ok ⟨none, ⟨76, 8⟩⟩ := by decide +kernel
 
 -- Non-vacuity
 example : checkEnd.run (idealOps (Stream.ofBytes [1,2,3]) .seekable) 1000 = .parseErr .truncatedBox := by decide
